@@ -115,6 +115,12 @@ Proof.
   - apply okl_app; [eapply set_state_ok; eassumption | eapply record_interruptions_ok; eassumption].
 Qed.
 
+Lemma request_pause_in_task_ok (s : st) d s' e o : request_pause_in_task P D s d = (s', e, o) -> okl o.
+Proof.
+  unfold request_pause_in_task. destruct (request_pause P D s d) as [[s1 e1] o1] eqn:E.
+  intros H; inversion H; subst. eapply request_pause_ok; exact E.
+Qed.
+
 Definition nostate (o : obs) : Prop := match o with OState _ _ => False | _ => True end.
 Lemma nostate_okl l : Forall nostate l -> okl l.
 Proof. induction 1 as [|o l H _ IH]; [apply okl_nil | apply okl_cons; [destruct o; cbn in *; tauto | exact IH]]. Qed.
@@ -146,6 +152,7 @@ Ltac use_helpers :=
          | H : call_pausables _ _ _ _ _ = _ |- _ => apply call_pausables_ok in H
          | H : record_interruptions _ _ _ = _ |- _ => apply record_interruptions_ok in H
          | H : request_pause _ _ _ _ = _ |- _ => apply request_pause_ok in H
+         | H : request_pause_in_task _ _ _ _ = _ |- _ => apply request_pause_in_task_ok in H
          | H : frame_resume _ _ _ _ = _ |- _ => apply frame_resume_ok in H
          end.
 
